@@ -1,7 +1,10 @@
 package props
 
 import (
+	"encoding/json"
 	"fmt"
+
+	"github.com/ipld/go-ipld-prime/datamodel"
 
 	"github.com/ipfs/go-cid"
 
@@ -170,6 +173,77 @@ func c09AuthSub() *engine.Sub {
 							ctx.Failf(cs, "verdicts-differ-between-forms", "policy %v, %d-link chain, argument map %d: the verdicts of the two APIs / token forms differ: %v", pol, n, ai, labels)
 							break
 						}
+					}
+				}
+			}
+		},
+	}
+}
+
+// ---- whatever the policy decoder accepts can be matched ----
+
+type c09OpNameCase struct {
+	Op    string `json:"op"`
+	Shape int    `json:"shape"`
+}
+
+func (c *c09OpNameCase) Weight() int { return c.Shape }
+
+var c09OpNames = []string{"==", "!=", "<", "<=", ">", ">=", "like", "not", "and", "or", "all", "any", "every", "some", "none", "exists", "forall", "foreach", "in", "nin", "contains", "eq", "ne", "neq", "gt", "gte", "ge", "lt", "lte", "le",
+	"match", "matches", "regex", "glob", "ilike", "unlike", "&&", "||", "!", "xor", "nand", "nor", "if", "implies", "=", "===", "<>", "ALL", "Any", "NOT", "Like", "", " ", "all ", " any"}
+
+func c09OpNameSub() *engine.Sub {
+	shapes := []string{`[%s, ".l", ["==", ".", 1]]`, `[%s, ".a", 1]`, `[%s, ".s", "a*"]`, `[%s, ["==", ".a", 1]]`, `[%s, [["==", ".a", 1], ["==", ".a", 2]]]`, `[%s, []]`, `[%s, ".l?", ["like", ".", "*"]]`}
+	return &engine.Sub{
+		Name:   "accepted-policies-can-be-matched",
+		Repeat: true,
+		Rule:   fmt.Sprintf("%d operator names - the ten of the specification, names from earlier drafts and from other policy languages (every, some, none, exists, in, contains, eq, ne, gte, matches, regex, &&, ||, ! ...), other letter cases, padded and empty names - in 7 statement shapes (quantifier, comparison, pattern, negation, connective with two and with no operands, quantifier over an optional selector), read with policy.FromDagJson and FromIPLD, bare and nested under not / and / any: whatever the decoder accepts, Match and PartialMatch on 5 data values and String / ToIPLD return without panic; non-trivial = accepted policies", len(c09OpNames)),
+		Bound: func(string) string {
+			return fmt.Sprintf("%d names x 7 shapes x 4 nestings x 5 data values", len(c09OpNames))
+		},
+		Gen: func(tier string, emit func(any) bool) {
+			for _, op := range c09OpNames {
+				for sh := range shapes {
+					if !emit(&c09OpNameCase{op, sh}) {
+						return
+					}
+				}
+			}
+		},
+		NewCase: func() any { return &c09OpNameCase{} },
+		Run: func(ctx *engine.Ctx, c any) {
+			cs := c.(*c09OpNameCase)
+			q, _ := json.Marshal(cs.Op)
+			stmt := fmt.Sprintf(shapes[cs.Shape], q)
+			data := []datamodel.Node{nMap(kv{"a", nInt(1)}, kv{"l", nList(nInt(1), nInt(2))}, kv{"s", nStr("ab")}), nMap(kv{"a", nInt(2)}, kv{"l", nList()}), nMap(), nList(nInt(1)), nNull()}
+			ctx.States(1)
+			for ni, wrap := range []string{`[%s]`, `[["not", %s]]`, `[["and", [%s, ["==", ".a", 1]]]]`, `[["any", ".l", %s]]`} {
+				js := fmt.Sprintf(wrap, stmt)
+				var pol policy.Policy
+				var err error
+				if pan, stack := callNoPanic(func() { pol, err = policy.FromDagJson(js) }); pan != nil {
+					ctx.Failf(cs, "panic/"+panicSite(stack), "policy.FromDagJson(%s) panics: %v", js, pan)
+					return
+				}
+				ctx.Eval(1)
+				if err != nil {
+					ctx.Outcome("rejected")
+					continue
+				}
+				ctx.Outcome("accepted")
+				ctx.Nontrivial(1)
+				for di, d := range data {
+					pan, stack := callNoPanic(func() {
+						pol.Match(d)
+						pol.PartialMatch(d)
+						_ = pol.String()
+						_, _ = pol.ToIPLD()
+					})
+					ctx.Eval(1)
+					ctx.Trans(1)
+					if pan != nil {
+						ctx.Failf(cs, "panic/"+panicSite(stack), "the decoder accepts %s (nesting %d), and matching it on data value %d panics: %v", js, ni, di, pan)
+						return
 					}
 				}
 			}
